@@ -23,6 +23,40 @@ def run(ctx: Ctx, chk) -> None:
     chk.run_rule(iter1, ctx)
     chk.run_rule(mut1, ctx)
     chk.run_rule(sleep1, ctx)
+    chk.run_rule(asleep_during_flush, ctx)
+
+
+def asleep_during_flush(ctx: Ctx, chk) -> None:
+    rule = "FLUSH-ASLEEP"
+    chk.rule(rule, "while buffered commands are being released the node stays marked as sleeping: neither the flush nor a wake handler that calls it stores anything but True into <node>.sleeping - with the mark cleared, a send that runs while a release is suspended in the transport bypasses the buffer, and the (older) value still in the flush's snapshot is written after it")
+    from . import tables
+
+    flush = sb.flush_functions(ctx)
+    flush_names = {f.name for f in flush}
+    scope = list(flush)
+    for f in tables.all_handler_defs(ctx, include_wrappers=True):
+        if f in scope:
+            continue
+        if any(isinstance(n, ast.Call) and isinstance(n.func, ast.Attribute) and n.func.attr in flush_names for n in ctx.own_nodes(f)):
+            scope.append(f)
+    n = 0
+    for f in scope:
+        n += 1
+        chk.instance(rule)
+        bad = None
+        for node in ctx.own_nodes(f):
+            tg = node.targets if isinstance(node, ast.Assign) else [node.target] if isinstance(node, (ast.AugAssign, ast.AnnAssign)) else []
+            for t in tg:
+                if isinstance(t, ast.Attribute) and t.attr == "sleeping" and not (isinstance(node, ast.Assign) and isinstance(node.value, ast.Constant) and node.value.value is True):
+                    bad = node
+            if isinstance(node, ast.Call) and isinstance(node.func, ast.Name) and node.func.id == "setattr" and len(node.args) == 3 and isinstance(node.args[1], ast.Constant) and node.args[1].value == "sleeping":
+                bad = node
+        key = f"{f.fq}::keeps-sleeping-mark"
+        if bad is None:
+            chk.ok(rule, key, "only `sleeping = True` (or no store at all)", f.where, sample=n <= 2)
+        else:
+            chk.refute(rule, key, f"`{norm(bad)[:60]}` in {f.qualname} clears / changes the sleeping mark around the release of the buffer: a command sent while a release is suspended is written directly, and the stale snapshot entry for the same key is written after it (the last value written is not the last value sent)", ctx.loc(f, bad))
+    chk.floor(rule, "flush functions and wake handlers", n, 3)
 
 
 def _def_nodes(g: CFG, names: set[str]):
